@@ -647,6 +647,9 @@ def _inv_atom(bn):
         if len(m) == 1 and m[0][1] == 1 and co == 1 and c.atom_keys[m[0][0]][0] == 'exp':
             u = SymReal(dict(c.atom_keys[m[0][0]][1]))
             return lift(exp(mul(-1.0, u)))
+        # 1/(1/b) = b   (b != 0 is the inner atom's own side condition)
+        if len(m) == 1 and m[0][1] == 1 and co == 1 and c.atom_keys[m[0][0]][0] == 'inv':
+            return SymReal(dict(c.atom_keys[m[0][0]][1]))
     k = ('inv', bn.key())
     idx = c.atom_by_key.get(k)
     if idx is None:
